@@ -674,6 +674,7 @@ static void copy_input_buffer(SequenceControlSet *sequenceControlSet, EbBufferHe
     dst->size         = src->size;
     dst->qp           = src->qp;
     dst->pic_type     = src->pic_type;
+    dst->p_app_private = src->p_app_private;
 
     // Copy the metadata array
     if (src->metadata)
